@@ -134,3 +134,39 @@
         }
         lemma_pk_bytes_unique(out0, out1, K as int);
     }
+    // ---- C06: the formatted message M' determines (mode, ctx, M) resp. (mode, ctx, OID, PH(M)) for contexts of at most 255 bytes
+    pub proof fn lemma_mprime_injective(m: Seq<u8>, ctx: Seq<u8>, oid: Seq<u8>, phm: Seq<u8>, m2: Seq<u8>, ctx2: Seq<u8>, oid2: Seq<u8>, phm2: Seq<u8>)
+        requires ctx.len() <= 255, ctx2.len() <= 255, oid.len() == 0 || oid.len() == 11, oid2.len() == 0 || oid2.len() == 11,
+            mprime(m, ctx, oid, phm, false) == mprime(m2, ctx2, oid2, phm2, false),
+        ensures ctx == ctx2, oid == oid2, oid.len() == 0 ==> m == m2, oid.len() > 0 ==> phm == phm2,
+    {
+        let a = mprime(m, ctx, oid, phm, false); let b = mprime(m2, ctx2, oid2, phm2, false);
+        let n = ctx.len() as int; let n2 = ctx2.len() as int;
+        // domain separator byte: same mode
+        assert(a[0] == (if oid.len() == 0 { 0u8 } else { 1u8 }));
+        assert(b[0] == (if oid2.len() == 0 { 0u8 } else { 1u8 }));
+        assert((oid.len() == 0) == (oid2.len() == 0));
+        // length byte: same context length (no reduction mod 256 for lengths <= 255)
+        assert(a[1] == n as u8 && b[1] == n2 as u8);
+        assert(n == n2);
+        assert forall|i: int| 0 <= i < n implies ctx[i] == ctx2[i] by { assert(a[2 + i] == ctx[i]); assert(b[2 + i] == ctx2[i]); }
+        assert(ctx =~= ctx2);
+        if oid.len() == 0 {
+            assert(oid =~= oid2);
+            assert(a.len() == 2 + n + m.len() && b.len() == 2 + n + m2.len());
+            assert forall|i: int| 0 <= i < m.len() implies m[i] == m2[i] by { assert(a[2 + n + i] == m[i]); assert(b[2 + n + i] == m2[i]); }
+            assert(m =~= m2);
+        } else {
+            assert forall|i: int| 0 <= i < 11 implies oid[i] == oid2[i] by { assert(a[2 + n + i] == oid[i]); assert(b[2 + n + i] == oid2[i]); }
+            assert(oid =~= oid2);
+            assert(a.len() == 2 + n + 11 + phm.len() && b.len() == 2 + n + 11 + phm2.len());
+            assert forall|i: int| 0 <= i < phm.len() implies phm[i] == phm2[i] by { assert(a[2 + n + 11 + i] == phm[i]); assert(b[2 + n + 11 + i] == phm2[i]); }
+            assert(phm =~= phm2);
+        }
+    }
+    pub proof fn lemma_oid_injective(p1: Ph, p2: Ph)
+        requires spec_oid(p1) == spec_oid(p2),
+        ensures p1 == p2,
+    {
+        assert(spec_oid(p1)[10] == spec_oid(p2)[10]);
+    }
